@@ -116,6 +116,12 @@ def greedy_restores_consistency(d, ctx):
     # hundreds of thousands, where implementations start to work in blocks)
     if d.aux(162).integers(0, 6) == 0:
         T = int(d.aux(163).integers(100, 700))
+    if d.epoch >= 3 and d.aux(166).integers(0, 16) == 0:
+        # a whole recording at the shipped STFT size 1024: K*K*T*F of 1e7
+        # (one such case in sixteen; about a second each)
+        F = 513
+        T = int(2 ** 23 / (K * K * F) * d.aux(167).uniform(1.05, 1.5))
+        ctx.label('recording-sized')
     mask = scene(d, rng, K, F, T)
     field, fk = draw_field(d, rng, K, F)
     mixed = permute_layout(d, permute(mask, field))
